@@ -1832,9 +1832,21 @@ fn resolve_overrides(src: &str, line: &str) -> Sexp {
             ],
         ));
     }
-    match naga::back::pipeline_constants::process_overrides(&module, &info, &map) {
+    // naga 24's process_overrides has assertion failures of its own on some modules (UniqueArena::replace); that is
+    // the oracle failing, not the map: reported as such
+    let resolved = std::panic::catch_unwind(std::panic::AssertUnwindSafe(|| {
+        naga::back::pipeline_constants::process_overrides(&module, &info, &map).map(|(m, _)| m.into_owned())
+    }));
+    let resolved = match resolved {
+        Ok(r) => r,
+        Err(p) => {
+            out.push(tagged("oracle-panic", vec![string(run::panic_message(p))]));
+            return tagged("ovres", out);
+        }
+    };
+    match resolved {
         Err(e) => out.push(tagged("rejected", vec![string(format!("{e:?}")), string(format!("{e}"))])),
-        Ok((m2, _)) => {
+        Ok(m2) => {
             out.push(atom("accepted"));
             for (name, ty, val, _) in &fields {
                 let Some(v) = val else { continue };
